@@ -99,7 +99,7 @@ def attr_value(v):
 def gen_filespec(rng, maxdims=5, maxvars=6, allow_unlimited=True,
                  allow_scalar=True, dtypes=None, allow_char=False,
                  maxlen=6, mask_prob=0.4, coord_prob=0.5, names=None,
-                 bounds_prob=0.0):
+                 bounds_prob=0.0, second_unlimited=False):
     dtypes = dtypes or DTYPES
     nd = int(rng.integers(2, maxdims + 1))
     pool = list(names) if names else (
@@ -109,10 +109,12 @@ def gen_filespec(rng, maxdims=5, maxvars=6, allow_unlimited=True,
     dims = []
     unl = int(rng.integers(0, nd)) if (allow_unlimited and
                                       rng.random() < 0.5) else -1
+    unl2 = (unl + 1) % nd if (second_unlimited and unl >= 0 and nd > 1) \
+        else -1
     for i, name in enumerate(dn):
         ln = int(rng.choice([1, 1, 2, 2, 3, 4, 5, 6]))
         ln = min(ln, maxlen)
-        dims.append([name, ln, i == unl])
+        dims.append([name, ln, i in (unl, unl2)])
     dlen = {d[0]: d[1] for d in dims}
     vars_ = []
     # coordinate variables
